@@ -213,7 +213,8 @@ func init() {
 		return &Val{T: v}
 	})
 	reg("bytes.Equal", func(e *Enc, fr *Frame, st *State, a []*Val, _ []types.Type, pos token.Pos) *Val {
-		e.work(st, e.slLen(a[0].T))
+		// bytes.Equal compares the lengths first: content is only read when they are equal
+		e.work(st, e.C.Ite(e.C.Eq(e.slLen(a[0].T), e.slLen(a[1].T)), e.slLen(a[0].T), e.bv64(0)))
 		return &Val{T: e.bytesEqual(st, a[0].T, a[1].T)}
 	})
 	reg("common.CopyBytes", func(e *Enc, fr *Frame, st *State, a []*Val, _ []types.Type, pos token.Pos) *Val {
